@@ -369,6 +369,56 @@ func otherEncodings(rng *gen.RNG, keyLens []int, emit func(text, class string)) 
 	}
 }
 
+// c07TwinHistory: one goroutine; a valid canonical text, then "twins" of it - the same text with one or two characters
+// replaced by another byte with the same low five bits (digits 2..7 and the letters R..W, '*' and 'J', a letter with
+// its high bit set, control bytes), by the byte with the other case bit, or with the low six / seven bits kept - then
+// the valid text again. A twin is judged on its own by the reference decoder: another valid text must give ITS bytes,
+// anything else must be refused. Whatever is remembered about the last text under a folded, masked or shortened
+// form of it answers a twin with the first text's bytes.
+func c07TwinHistory(c *Ctx) {
+	rng := c.RNG.Fork(78)
+	for w := 0; w < c.N(60, 1200); w++ {
+		key := rng.Bytes(gen.Pick(rng, []int{5, 10, 10, 15, 20, 20, 32, 40}))
+		valid := ref.Base32EncodeNoPad(key)
+		base := spellCase{KeyHex: hexs(key), Text: valid, Valid: true, Class: "canonical text (twin history)"}
+		judgeSpell(c, base)
+		for n := 0; n < 12; n++ {
+			b := []byte(valid)
+			nrep := 1 + rng.Intn(2)
+			for j := 0; j < nrep; j++ {
+				i := rng.Intn(len(b) - 1) // never the last character (its spare bits have rules of their own)
+				ch := b[i]
+				switch rng.Intn(5) {
+				case 0, 1, 2:
+					nb := ch&0x1f | byte(rng.Intn(8))<<5
+					if nb == ch {
+						nb ^= 0x40
+					}
+					b[i] = nb
+				case 3:
+					b[i] = ch ^ 0x80
+				default:
+					b[i] = ch&0x3f | byte(rng.Intn(4))<<6
+				}
+			}
+			t := string(b)
+			if t == valid {
+				continue
+			}
+			k := spellCase{Text: t, Class: "twin of the previous valid text"}
+			if kb, err := ref.Base32Decode(t); err == nil {
+				if ref.Base32EncodeNoPad(kb) != strings.ToUpper(t) {
+					continue // accepted by the reference only through rules about spare bits: not a clear case
+				}
+				k.Valid, k.KeyHex = true, hexs(kb)
+			}
+			judgeSpell(c, k)
+			judgeSpell(c, base)
+			c.R.Count("twin_history_steps", 1)
+		}
+	}
+}
+
 func c07History(c *Ctx, cases []spellCase) {
 	rng := c.RNG.Fork(77)
 	var valid, invalid []spellCase
@@ -410,6 +460,7 @@ func init() {
 	register(&Prop{
 		ID: "C07",
 		Rule: "for byte strings of every length 0..256 x content classes: every accepted spelling (padded, unpadded, partially padded; upper, lower, mixed case; leading/trailing space, tab, CR, LF) must decode to exactly those bytes and give identical results at all six generation/validation entry points (HMAC key observed through the hook); invalid texts (characters outside the alphabet incl. U+017F/U+0131/U+212A whose upper-case mapping is a base32 letter, lengths 1/3/6 mod 8, padding in the middle) must be rejected; " +
+			"a one-goroutine history of valid canonical texts each followed by twins (one or two characters replaced by bytes with the same low five, six or seven bits or the other case bit) judged on their own by the reference decoder (observed.twin_history_steps); " +
 			"distinct_nontrivial counts distinct (class, text) pairs",
 		Run: func(c *Ctx) {
 			rng := c.RNG.Fork(7)
@@ -457,6 +508,7 @@ func init() {
 			// sequential history on one goroutine: hot valid spellings repeated byte-identically, interleaved with invalid
 			// texts of every class (a decoder that remembers or reuses anything across calls shows up here)
 			c07History(c, cases)
+			c07TwinHistory(c)
 			if !hooks.Available() {
 				c.R.Inconclusive("HMAC key observation per spelling: verif hooks unavailable")
 			}
